@@ -35,6 +35,7 @@ class Arr:
         self.base = base if base is not None else self
         self.offset = offset
         self.writes = [] if base is None else base.writes      # (index, value, node) in program order
+        self.reads = [] if base is None else base.reads        # keys read, in program order (cleared by clients)
 
     def view(self, offset):
         return Arr(self.name, self.default, self.offset + offset, self.base)
@@ -46,6 +47,7 @@ class Arr:
 
     def get(self, idx):
         k = self._key(idx)
+        self.reads.append(k)
         if k in self.store:
             return self.store[k]
         if self.default is None:
@@ -363,6 +365,12 @@ class Interp:
                 self.assign(tt, vv, fr, st)
             return
         if isinstance(t, ast.Subscript):
+            if isinstance(t.value, ast.Name) and isinstance(fr.vars.get(t.value.id), Ref):
+                ref = fr.vars[t.value.id]
+                if self.index(t.slice, fr) != 0:
+                    raise AnalysisError('store through scalar pointer at non-zero index')
+                ref.frame.vars[ref.name] = v
+                return
             base = self.eval(t.value, fr)
             idx = self.index(t.slice, fr)
             if isinstance(base, Arr):
@@ -754,6 +762,9 @@ class Interp:
         return d
 
     def e_Subscript(self, e, fr):
+        if isinstance(e.value, ast.Name) and isinstance(fr.vars.get(e.value.id), Ref):
+            ref = fr.vars[e.value.id]
+            return ref.frame.vars[ref.name]
         base = self.eval(e.value, fr)
         if isinstance(base, Builtin) or (isinstance(base, tuple) and base and base[0] == 'class'):
             return base           # typing subscripts etc.
@@ -1009,6 +1020,8 @@ class Interp:
             return Opaque(nm)
         if nm in ('isnan', 'isinf', 'isfinite') and args and concrete(args[0]) is not None:
             return nm == 'isfinite'
+        if nm in ('spherical_jn', 'spherical_yn', 'jv', 'yv', 'erf', 'erfc', 'lgamma') and all(is_num(a) for a in args):
+            return X.fn(nm, *[to_node(a) for a in args])        # uninterpreted special function
         raise AnalysisError(f'{fr.mod.where(e)}: unmodelled builtin `{name}`')
 
 
